@@ -12,6 +12,7 @@ A request over the limit that evaluates must still return the right value.
 import modelx as mx
 from modelx.core.errors import FormulaError, DeepReferenceError
 from .props.base import Violation
+from .world import left_executing
 
 SHAPES = {
     # name -> list of (cells name, source, cached)
@@ -130,7 +131,7 @@ def run(ctx, pid):
                 outcome = ("exc", "RecursionError")
             events.append("f(%d) chain=%d limit=%d -> %s" % (n, chain, L, outcome[0] if outcome[0] == "exc" else outcome))
             ctx.count("deep_requests", 1, "reach")
-            if sysm.callstack or sysm.executor.is_executing:
+            if left_executing():
                 raise Violation("%s/deep/left-marked-executing" % pid, {"n": n, "limit": L, "shape": shape})
             after = held(space, shape)
             err = None
